@@ -13,8 +13,11 @@ FAIL (exit 1): the new master dies at start-up, so the upgrade is impossible
                (and stopping the old master, the last upgrade step, takes the
                service down).
 """
+import os as _os
+_TREE_UNDER_TEST = _os.environ.get("GVERIF_REPO") or _os.getcwd()   # the checkout under test (was the auditing agent's scratch worktree)
+
 import sys
-sys.path.insert(0, "/tmp/wa_C14")
+sys.path.insert(0, _TREE_UNDER_TEST)
 
 import os
 import shutil
@@ -23,7 +26,7 @@ import socket
 import tempfile
 import time
 
-ROOT = "/tmp/wa_C14"
+ROOT = _TREE_UNDER_TEST
 PY = sys.executable
 
 LAUNCHER = """\
